@@ -1642,6 +1642,7 @@ type op =
 | OSetAttrNested of z * z list list
 | OSetAttrSet of z * z list
 | OSetAttrDict of z * (z * z) list
+| OSetAttrDictOfLists of z * (z * z list) list
 | OReplaceSeries of z * z list
 
 (** val list_eqb : ('a1 -> 'a1 -> bool) -> 'a1 list -> 'a1 list -> bool **)
@@ -1819,6 +1820,18 @@ let compile_op k h r = function
        then (ASet ([], (a x), s)) :: []
        else if Z.eqb (own_scalar h r (a n_strict)) k.k_false
             then add_attribute_acts x s
+            else []
+| OSetAttrDictOfLists (name, kvss) ->
+  let x = resolve_alias h r name in
+  let inner =
+    map (fun kv -> ASet (((a x) :: []), (fst kv), (new_list (snd kv)))) kvss
+  in
+  if zmem x (scalars_path h r ((a n_index) :: []))
+  then []
+  else if zmem x (scalars_path h r ((a n_attributes) :: []))
+       then (ASet ([], (a x), (SFresh (KDict, [])))) :: inner
+       else if Z.eqb (own_scalar h r (a n_strict)) k.k_false
+            then app (add_attribute_acts x (SFresh (KDict, []))) inner
             else []
 | OReplaceSeries (name, vs) ->
   let x = resolve_alias h r name in
